@@ -257,5 +257,17 @@ def rich_family(rng, n_masters=2, axes=1, **kw):
                 exc = [i for i, e in enumerate(m["kerning"]) if (e[0], e[1]) in (("V", "o"), ("o", "A"), ("e", "public.kern2.A"))]
                 m["kerning"].pop(rng.choice(exc) if exc and rng.random() < 0.7 else rng.randrange(len(m["kerning"])))
         masters.append({"loc": loc, "ufo": m, "name": f"Bold{k}"})
+    if len(masters) == 3:
+        # any listing order of the sources (the default need not come first) ...
+        rng.shuffle(masters)
+        # ... and non-monotonic values: the first- and last-listed masters agree on some kerning values / anchors while the
+        # one listed between them differs
+        if rng.random() < 0.6:
+            a, c = masters[0]["ufo"], masters[2]["ufo"]
+            ka = {(l, r): v for l, r, v in a.get("kerning", [])}
+            c["kerning"] = [[l, r, ka.get((l, r), v) if rng.random() < 0.6 else v] for l, r, v in c.get("kerning", [])]
+            for n, g in c["glyphs"].items():
+                if rng.random() < 0.5 and n in a["glyphs"] and len(g["anchors"]) == len(a["glyphs"][n]["anchors"]):
+                    g["anchors"] = copy.deepcopy(a["glyphs"][n]["anchors"])
     fam = {"axes": [{"name": "Weight", "tag": "wght", "min": 400, "default": 400, "max": 700}], "masters": masters}
     return fam
